@@ -873,5 +873,18 @@ func (sc *Scenario) powUpdate(rel *core.Account) error {
 	res := sc.W.DeliverMsgs(sc.A, rel, mustUpdate("eth-main", &h2, rel))
 	sc.cover(fmt.Sprintf("eth-pow-bad-nonce-code-%d", res.Code))
 	sc.W.Roll(sc.A)
+	// a "slow block" (more than 900 s after its parent: the clamped branch of the difficulty formula) that is refused,
+	// and in a later block the real next header. Whatever judging the first leaves behind in the process (package-level
+	// values, caches) is gone on a node that was restarted in between.
+	slow := hs[2].ToHeader()
+	slow.Time = h1.Time + 1000
+	res = sc.W.DeliverMsgs(sc.A, rel, mustUpdate("eth-main", &slow, rel))
+	sc.cover(fmt.Sprintf("eth-pow-slow-header-code-%d", res.Code))
+	sc.W.Roll(sc.A)
+	sc.W.Roll(sc.A)
+	next := hs[2].ToHeader()
+	res = sc.W.DeliverMsgs(sc.A, rel, mustUpdate("eth-main", &next, rel))
+	sc.cover(fmt.Sprintf("eth-pow-header-after-slow-one-code-%d", res.Code))
+	sc.W.Roll(sc.A)
 	return nil
 }
